@@ -23,6 +23,9 @@ LANGSETS = [
     ("str", "javascript"),       # str registration: "java" must not match by substring
     ("str", "%"),
     ("set", ("python",)),
+    ("list", ()),                # empty language set: matches no event language (not "any")
+    ("set", ()),
+    ("omitted", ("%",)),         # langs argument left out: documented default = any language
 ]
 RETURNS = [0, 1, 2, 3, 4, 5, 8, 12, None]
 RETURNS_ALL = list(range(16)) + [None]
@@ -108,15 +111,18 @@ def run_case(mods, em, kinds, regs_spec, langsets, how, ev_lang, ev_kind, rep, s
             if w:
                 data.out_data = ("out", hid)
             return r
-        arg = langs if form == "str" else (list(langs) if form == "list" else set(langs))
-        handlers.append((kind, arg, h))
+        arg = langs if form == "str" else (set(langs) if form == "set" else list(langs))
+        handlers.append((kind, arg, h, form))
         coll = (langs,) if form == "str" else tuple(langs)
         regs.append((kind, coll, r, w, hid))
     if how == "register":
-        for kind, arg, h in handlers:
-            em.register(kind, h, arg)
+        for kind, arg, h, form in handlers:
+            if form == "omitted":
+                em.register(kind, h)
+            else:
+                em.register(kind, h, arg)
     else:
-        em.register_list([ht.EventHandler(langs=arg, event=kind, handler=h) for kind, arg, h in handlers])
+        em.register_list([ht.EventHandler(langs=arg, event=kind, handler=h) for kind, arg, h, form in handlers])
     in0 = ("in",)
     data = ht.EventData(ev_lang, ev_kind, in0)
     got = em.notify(data)
